@@ -123,6 +123,7 @@ def _witness(st):
     satisfiable): every row has one attribute and one charset for all its bytes."""
     tc = st.ghost.get("tc")
     out = [n_runs(x) == 1 for x in (tc.attrs + tc.css)] if tc is not None else []
+    out += [row_runs(r) == 1 for r in st.ghost.get("callee_rows", [])]  # ... and is yielded as one run
     return [c for c in out if not isinstance(c, bool)]
 
 
@@ -325,6 +326,49 @@ def _text_content_on_raise(old, s, a, exc):
     yield "canvas-not-modified", _unchanged_canvas(old, s)
 
 
+def _whole_rows_shape(vals):
+    """At a call site that asks for all the rows (trim_top == 0, rows falsy) the rows come spelled out, as many as the
+    canvas has (what `exactly-rows-rows` says): a caller that loops over them does so row by row."""
+    tc = cur().ghost.get("tc")
+    tt, rows = vals.get("trim_top"), vals.get("rows")
+    if tc is not None and isinstance(tt, int) and tt == 0 and (rows is None or (isinstance(rows, int) and rows == 0)):
+        k = tc.k
+
+        def fresh(st, hint):
+            rows = tuple(YROW.fresh_seq(st, f"{hint}_row{y}") for y in range(k))
+            st.ghost.setdefault("callee_rows", []).extend(rows)  # (for the witness scenario of the vacuity guards)
+            return LRef(rows)
+
+        return Custom(fresh, f"{k} rows")
+    return None
+
+
+def _text_content_callee(old, s, a, result):
+    """What a caller learns: the verified clauses (stated for the arbitrary run R and offset Qo), and the byte clause once
+    more in its universal form -- for EVERY run r and offset q, which is what the clause proved for arbitrary constants
+    means -- so that a caller can use it at positions of its own (Canvas.text: the run that a byte of the joined row
+    comes from)."""
+    yield from _text_content_post(old, s, a, result)
+    st = cur()
+    tc = st.ghost["tc"]
+    ecols, _erows, _ok = window(old, a, tc.k)
+    out = result.seq if isinstance(result, LRef) else result
+    if not isinstance(Q.seq_len(out), int):
+        return
+    trimmed = st.branch(either(a.trim_left != 0, ecols < old._maxcol))
+    for y in range(Q.seq_len(out)):
+        row = Q.seq_get(out, y)
+        j = [j for j in range(tc.k) if st.branch(a.trim_top + y == j)][0]
+        text, ar, cr = tc.texts[j], tc.attrs[j], tc.css[j]
+
+        def every_byte(r, row=row, text=text, ar=ar, cr=cr):
+            e = row_get(row, r)
+            return V.forall(0, tlen(e[2]), lambda q: byte_at(e[2], q) == src_cell(a, text, ar, cr, trimmed, a.trim_left, a.trim_left + ecols, row_off(row, r) + q)[0], check_empty=False)
+
+        yield f"row-{y}-bytes-are-the-bytes-of-the-window/for-every-run-and-offset", V.forall(0, row_runs(row), every_byte, check_empty=False)
+        yield f"row-{y}-offsets-ascend", V.forall(0, row_runs(row), lambda r, row=row: row_off(row, r + 1) == row_off(row, r) + tlen(row_get(row, r)[2]), check_empty=False)
+
+
 _TEXT_KW = dict(globals_=ENC, inline=("TextCanvas.cols", "TextCanvas.rows"), replayable=False, qf_branching=True, branch_timeout_ms=R.QBT,
                 cover_timeout_ms=R.CVT, cover_witness=_witness, no_xcheck="inputs are abstract texts")
 
@@ -342,6 +386,8 @@ for _alias, _counts in ROW_GROUPS.items():
         independent_posts = True
         requires = canvas_wf
         ensures = _text_content_post
+        ensures_callee = _text_content_callee
+        result_shape = _whole_rows_shape
         on_raise = _text_content_on_raise
         loops = {1: Loop(invariant=_runs_inv, modifies=("row",), shapes={"row": YROW})}
         # callers: ValueError exactly for such a window (`only-for-...` and `window-inside-the-canvas` say so)
@@ -543,3 +589,93 @@ class solid_content_delta:
         else:
             yield from _fill_post(result, old.size[1], old._text, old._cs, old.size[0], None)
         yield "canvas-not-modified", both(s.size[0] == old.size[0], s.size[1] == old.size[1], s._text is old._text, aeq(s._cs, old._cs))
+
+
+# ------------------------------------------------------------------------------------------------ Canvas.text
+# `[b"".join([text for (attr, cs, text) in row]) for row in self.content()]`: for a text canvas, row y of the result is
+# row y of the canvas, byte for byte (the runs of content() partition the row; joining them gives it back).
+#
+# b"".join(<texts>) for a list of symbolic length is modelled here (assumed; cross-checked against CPython by the
+# static check below): the result T is as long as the items together, and every position p of T lies in exactly one
+# item w = W(p) -- off(w) <= p < off(w + 1), off the prefix sums of the item lengths -- whose byte p - off(w) it is.
+# (That such an item exists for every position is a fact about prefix sums of non-negative lengths, part of the model.)
+
+
+def join_spec(items, joined):
+    """Executable form of the model, on plain bytes: is `joined` the concatenation of `items` as the model describes it?"""
+    off = [0]
+    for it in items:
+        off.append(off[-1] + len(it))
+    if len(joined) != off[-1]:
+        return False
+    for p in range(len(joined)):
+        ws = [w for w in range(len(items)) if off[w] <= p < off[w + 1]]
+        if len(ws) != 1 or joined[p] != items[ws[0]][p - off[ws[0]]]:
+            return False
+    return True
+
+
+def _xcheck_join():
+    import itertools
+
+    pieces = [b"", b"a", b"bc", b"\xe4\xb8\xad"]
+    bad = []
+    for n in range(4):
+        for items in itertools.product(pieces, repeat=n):
+            j = b"".join(list(items))
+            if not join_spec(items, j) or (j and join_spec(items, j[:-1])) or join_spec(items, j + b"x"):
+                bad.append(items)
+    return "bytes-join-model-agrees-with-cpython", not bad, f"b''.join(items) satisfies (and is pinned by) the model for all lists of up to 3 items over {pieces}; mismatches: {bad[:3]}"
+
+
+def _join_of_runs(ip, st, f, args, kwargs):
+    if not (getattr(f, "__name__", "") == "join" and getattr(f, "__self__", None) == b"" and len(args) == 1 and not kwargs):
+        return NotImplemented
+    items = args[0].seq if isinstance(args[0], LRef) else args[0]
+    if not isinstance(items, Q.SSeq) or isinstance(Q.seq_len(items), int):
+        return NotImplemented
+    base = getattr(items, "comp_over", None)
+    if base is None or getattr(base, "psum", None) is None or getattr(base, "measure", None) is None:
+        raise Unsupported("b''.join of a sequence that is not a projection of a list carrying the prefix sums of its text lengths")
+    n = Q.seq_len(items)
+    probe = V.arbitrary("join-probe")
+    same = z3.simplify(V._z(tlen(items.get(probe))) == V._z(base.measure(base.get(probe))))
+    if not z3.is_true(same):
+        raise Unsupported("b''.join: the joined texts are not the texts whose lengths the list sums")
+    off = base.psum
+    T = Text("bytes").fresh(st, "joined")
+    W = z3.Function(st.fresh_name("join_item"), z3.IntSort(), z3.IntSort())
+    st.assume(tlen(T) == off(n))
+
+    def at_position(p):
+        w = V.mk_int(W(V._z(p)))
+        return both(0 <= w, w < n, off(w) <= p, p < off(w + 1), off(w + 1) == off(w) + tlen(items.get(w)), byte_at(T, p) == byte_at(items.get(w), p - off(w)))
+
+    V.lazy_forall(0, tlen(T), at_position)
+    return T
+
+
+@contract(CV + "Canvas.text", property=PROPS, globals_=ENC, replayable=False, qf_branching=True, branch_timeout_ms=R.QBT, cover_timeout_ms=R.CVT, cover_witness=_witness,
+          no_xcheck="inputs are abstract texts", call_real=_join_of_runs, static_checks=[_xcheck_join], setup=_setup_rows((0, 1, 2)))
+class canvas_text:
+    """Canvas.text of a TEXT canvas (the property is inherited by every canvas; a text canvas of 0 .. 2 spelled-out rows here)."""
+    self_shape = TEXTCANVAS
+    params = {}
+    raises = (ValueError,)
+    requires = canvas_wf
+
+    def ensures(old, s, a, result):
+        tc = cur().ghost["tc"]
+        out = result.seq if isinstance(result, LRef) else result
+        yield "one-text-per-row", both(isinstance(Q.seq_len(out), int), Q.seq_len(out) == tc.k)
+        P = V.arbitrary("P")
+        V.instantiate(P)
+        for y in range(tc.k):
+            t, src = Q.seq_get(out, y), tc.texts[y]
+            yield f"row-{y}-as-long-as-the-row-of-the-canvas", tlen(t) == tlen(src)
+            yield f"row-{y}-is-the-row-of-the-canvas-byte-for-byte", implies(both(0 <= P, P < tlen(src)), byte_at(t, P) == byte_at(src, P))
+        yield "canvas-not-modified", _unchanged_canvas(old, s)
+
+    def on_raise(old, s, a, exc):
+        tc = cur().ghost["tc"]
+        yield "only-passed-on-from-content", neg(window(old, _whole(a), tc.k)[2])
